@@ -57,12 +57,21 @@ def run_c20(prop, tier, seed, replay=None):
         cases = [json.load(open(replay))["scenario"]]
     else:
         cases = _cases("MCNamespace", "Namespace_mc.cfg", v, 2100) if tier == "quick" else _cases("MCNamespace", "Namespace_big.cfg", v, 7000)
+        for c in cases:
+            c["kind"] = "namespace"
+        # torrents sharing a name: Namespace!ByName
+        byname = _cases("MCByName", "ByName_mc.cfg", v, 150)
+        if tier == "quick":
+            byname = [c for k, c in enumerate(byname) if k % 3 == seed % 3]
+        for c in byname:
+            c["kind"] = "byname"
+        cases += byname
         for i, c in enumerate(cases):
-            c["id"], c["kind"] = i, "namespace"
-    n = _drive(v, prop, cases, lambda c: "namespace")
+            c["id"] = i
+    n = _drive(v, prop, cases, lambda c: c["kind"])
     v.cov["traces_validated_against_impl"] = n
     v.cov["evaluations"] = n
-    v.cov["distinct_nontrivial"] = len({json.dumps([c["files"], c["p"]]) for c in cases})
+    v.cov["distinct_nontrivial"] = len({json.dumps([c.get("files"), c.get("p"), c.get("kinds"), c.get("rank"), c.get("probe")]) for c in cases})
     v.cov["rule"] = "every (layout, lookup path) case enumerated by TLC from Namespace.tla; the expected resolution, listing and playlist come from the spec's operators"
     return v.finish()
 
